@@ -246,6 +246,21 @@ class SchedCtx(object):
         return self.inner.setValues(fx, address, values)
 
 
+class SchedDecoder(object):
+    """the server's decoder with a scheduling point where a handler thread can be pre-empted between checking a
+    frame and labelling the decoded request with the frame's ids"""
+
+    def __init__(self, inner, s):
+        self.inner, self.s = inner, s
+
+    def decode(self, data):
+        self.s.point('decode')
+        return self.inner.decode(data)
+
+    def __getattr__(self, name):
+        return getattr(self.inner, name)
+
+
 class SchedSock(object):
     def __init__(self, s, chunks):
         self.s, self.chunks, self.writes = s, list(chunks), []
@@ -288,6 +303,7 @@ def shard_threads(args):
         real = scenario.LAY.build(st)
         ctx = servers.server_context(SchedCtx(real, s), True)
         srv = servers.Server('sync-tcp', 'tcp', ctx)
+        srv.obj.decoder = SchedDecoder(srv.obj.decoder, s)
         socks = []
         for ci, (reqs, frames) in enumerate(scripts):
             sock = SchedSock(s, frames)
@@ -318,6 +334,12 @@ def shard_threads(args):
         errs = [t.error for t in s.threads if t.error is not None]
         if errs:
             acc.violation('C17/sync-tcp-threads/tcp/escape:%s/%s' % (type(errs[0]).__name__, name), wit, repr(errs[0])[:100], 'threads')
+        for ci, (reqs, frames) in enumerate(scripts):
+            mine = [t for _, t, _ in reqs]
+            theirs = [t for t, _ in got[ci]]
+            if theirs != mine[:len(theirs)] or len(theirs) != len(mine):
+                acc.violation('C17/sync-tcp-threads/tcp/wrong-ids/%s' % name, wit,
+                              'connection %d sent transaction ids %r and was answered with %r' % (ci, mine, theirs), 'threads')
         ok = any(obs[1] == fin and all(rep[ci] == obs[0][ci] for ci in range(len(scripts))) for rep, fin in allowed)
         if not ok:
             acc.violation('C17/sync-tcp-threads/tcp/not-serialisable/%s' % name, wit,
